@@ -147,7 +147,7 @@ def partitions(ck, an):
         for c in apps:
             if any(c is x for x in ast.walk(s)) and isinstance(s, ast.Expr):
                 wants = [fw.canon(ast.parse(f"self.timesteps[{b}(self.timesteps, {ev}.time)]", mode="eval").body) for b in ("bisect.bisect_left", "np.searchsorted")]
-                info[id(c)] = (fw.canon(c.func.value.slice), fw.canon(c.args[0]) if c.args else "?", wants)
+                info[id(c)] = (fw.canon(c.func.value.slice), fw.canon(c.args[0]) if c.args else "?", wants, fw.canon(ast.Name(id=ev, ctx=ast.Load())))
     fw = Forward(an, fa, on_stmt=on_stmt, call_effects=False).run()
     fe = Forward(an, fa, call_effects=False)
     fe.st.locals[ev] = fw_loopvar(fa, loop, ev)
@@ -155,11 +155,11 @@ def partitions(ck, an):
         if id(c) not in info:
             ck.fail("IDIOM", "S1.slot-is-bisect-left", subj, fa.loc(c), "partition append is not a plain statement", construct=stmt_text(c))
             continue
-        key, arg, wants = info[id(c)]
+        key, arg, wants, item = info[id(c)]
         ok = key in wants
         ck.check(ok, "IDIOM", "S1.slot-is-bisect-left", subj, fa.loc(c), "the event is filed under timesteps[bisect_left(timesteps, event.time)]: the first timestep >= its time",
                  f"partition key is {key}", construct=stmt_text(c))
-        ck.check(arg.startswith(ev + "∈"), "ARGFLOW", "S2.appends-the-event", subj, fa.loc(c), "the loop's event itself is appended", f"appended value is {arg}", construct=stmt_text(c))
+        ck.check(arg == item, "ARGFLOW", "S2.appends-the-event", subj, fa.loc(c), "the loop's event itself is appended", f"appended value is {arg}", construct=stmt_text(c))
     # sorted(set(timesteps)) dominates the loop
     norm = [s for s in assigns_to_attr(fa, "timesteps")]
     good_norm = [s for s in norm if isinstance(s, ast.Assign) and fa.sym.canon(s.value) == "sorted(set(self.timesteps))"]
@@ -333,7 +333,7 @@ def dispatch(ck, an):
             cb_calls.append((c, fa.sym.canon(c.func)))
     ck.check(len(cb_calls) == 1, "PATHCOUNT", "S2.one-callback-per-observer", subj, fa.loc(loop), "one callback invocation site per observer", f"{len(cb_calls)} callback invocation sites", construct="callback(self)")
     for c, k in cb_calls:
-        oatom = f"{obs}∈{fa.f.params[1]}"
+        oatom = loop_item(fa, loop).key()
         want = f"getattr({oatom}, ({oatom})._observed_events[type(self).__name__])"
         want2 = f"getattr({oatom}, {oatom}._observed_events[type(self).__name__])"
         ck.check(k in (want, want2), "ARGFLOW", "S2.callback-by-class-name", subj, fa.loc(c), "the callback is the observer's method registered under the event's class name",
@@ -421,7 +421,7 @@ def nxt(ck, an):
         ord_before(ck, fa, "S9.first-step-test-after-advance", incs, [n.test], "the pointer advance", "the first-step test (_step_nr == 1)")
     # origin
     odefs = [d for d in fa.rd.defs if d.var == "origin" and d.kind == "assign"]
-    good = len(odefs) == 1 and fa.sym.canon(odefs[0].value, odefs[0].node) == "ite([self._warmup], self._current_time + -self._warmup, datetime.min)"
+    good = len(odefs) == 1 and fa.sym.ev(odefs[0].value, odefs[0].node) == spec(fa, "(self._current_time - self._warmup) if self._warmup else datetime.min", odefs[0].node)
     ck.check(good, "LIN", "S9.warmup-horizon", subj, fa.loc(n), "origin = current time - warm-up horizon, or the beginning of time", f"origin = {[fa.sym.canon(d.value, d.node) for d in odefs]}",
              construct="origin = (self._current_time - self._warmup) if self._warmup else datetime.min")
     # S7 batch shape
